@@ -29,21 +29,70 @@ type runner interface {
 	run(h *Hist) Outcome
 }
 
+// job: a history with the timing parameters of this attempt
+type job struct {
+	H         *Hist `json:"h"`
+	Scale     int   `json:"scale"`                // first value of faultdrv.WaitScale
+	TimeoutMs int   `json:"timeout_ms,omitempty"` // subscriber's HTTP client timeout (0 = 200)
+	Tries     int   `json:"tries,omitempty"`
+}
+
+// the scheduling probe of a worker process
+type probeT struct {
+	mu     sync.Mutex
+	max    time.Duration
+	n      int
+	over10 int
+}
+
+var theProbe probeT
+
+func (p *probeT) loop() {
+	const nap = 2 * time.Millisecond
+	for {
+		t0 := time.Now()
+		time.Sleep(nap)
+		over := time.Since(t0) - nap
+		p.mu.Lock()
+		p.n++
+		if over > p.max {
+			p.max = over
+		}
+		if over > 10*time.Millisecond {
+			p.over10++
+		}
+		p.mu.Unlock()
+	}
+}
+
+func (p *probeT) reset() {
+	p.mu.Lock()
+	p.max, p.n, p.over10 = 0, 0, 0
+	p.mu.Unlock()
+}
+
+func (p *probeT) window() (maxMs float64, n, over10 int) {
+	p.mu.Lock()
+	defer p.mu.Unlock()
+	return float64(p.max) / float64(time.Millisecond), p.n, p.over10
+}
+
 // workerMain is the subprocess: one JSON history per input line, one JSON outcome per output line.
 func workerMain(seed string) {
 	_ = logging.SetLogLevel("*", "fatal")
 	wk := &worker{worlds: map[string]*fd.World{}, seed: seed}
+	go theProbe.loop()
 	in := bufio.NewReaderSize(os.Stdin, 1<<20)
 	out := bufio.NewWriter(os.Stdout)
 	for {
 		line, err := in.ReadBytes('\n')
 		if len(line) > 0 {
-			var h Hist
-			if e := json.Unmarshal(line, &h); e != nil {
+			var j job
+			if e := json.Unmarshal(line, &j); e != nil || j.H == nil {
 				fmt.Fprintln(os.Stderr, "worker: bad input:", e)
 				os.Exit(3)
 			}
-			res := wk.run(&h)
+			res := wk.run(&j)
 			b, _ := json.Marshal(res)
 			out.Write(b)
 			out.WriteByte('\n')
@@ -136,7 +185,7 @@ func (p *procWorker) stop() {
 }
 
 // HistTimeout bounds one history (with its re-runs) in a worker.
-var HistTimeout = 90 * time.Second
+var HistTimeout = 150 * time.Second
 
 // panicText extracts the panic / fatal error and the first goroutine from a dead worker's stderr.
 func panicText(s string) string {
@@ -163,11 +212,13 @@ func panicText(s string) string {
 	return strings.TrimSpace(s)
 }
 
-func (p *procWorker) run(h *Hist) Outcome {
+func (p *procWorker) run(h *Hist) Outcome { return p.runJob(&job{H: h, Scale: 1}) }
+
+func (p *procWorker) runJob(j *job) Outcome {
 	if p.cmd == nil {
 		p.start()
 	}
-	b, _ := json.Marshal(h)
+	b, _ := json.Marshal(j)
 	type res struct {
 		line []byte
 		err  error
@@ -221,7 +272,7 @@ func freshRun(h *Hist) Outcome {
 // still does.
 func shrinkCrash(h *Hist) (min *Hist, reproduced bool) {
 	crashes := func(c *Hist) bool { return freshRun(c).Crash != "" }
-	if !crashes(h) {
+	if !crashes(h) && !crashes(h) {
 		return h, false
 	}
 	cur := *h
